@@ -162,6 +162,17 @@ var hC10Table = []struct {
 	{types.FloatKindFloat, "0x7FF0000000000000", false, "", 0}, {types.FloatKindFloat, "0xFFF0000000000000", false, "", 0},
 	{types.FloatKindDouble, "0x0000000000000001", false, "", 0}, {types.FloatKindDouble, "0x7FEFFFFFFFFFFFFF", false, "", 0},
 
+	// decimal literals at and next to the midpoint between two doubles: the
+	// exact tie goes to even; literals whose value is so close to a midpoint
+	// that an intermediate rounding to 64 bits would cross it (expected
+	// literals by IEEE 754 round-to-nearest-even, cross-checked with
+	// strconv.ParseFloat and llvm-as 14)
+	{types.FloatKindDouble, "1.00000000000000011102230246251565404236316680908203125", false, "1.0", 0},
+	{types.FloatKindDouble, "1.00000000000000011102230246251565404236316680908203126", false, "0x3FF0000000000001", 0},
+	{types.FloatKindDouble, "1.00000000000000011102230246251565404236316680908203124", false, "1.0", 0},
+	{types.FloatKindDouble, "1.00000000000000011103", false, "0x3FF0000000000001", 0},
+	{types.FloatKindDouble, "5.917e-40", false, "0x37C9C5ACEB678353", 0}, {types.FloatKindDouble, "7.27e-38", false, "0x3838BD102D09F4E7", 0},
+	{types.FloatKindDouble, "6.561e-38", false, "0x3836536FE47947D1", 0}, {types.FloatKindDouble, "2.91e-11", false, "0x3DBFFEEBFC8B81B5", 0},
 	{types.FloatKindDouble, "0.0", false, "", 0}, {types.FloatKindDouble, "-0.0", false, "", 0}, {types.FloatKindDouble, "1.0", false, "", 0},
 	{types.FloatKindDouble, "1000000.0", false, "", 0}, {types.FloatKindDouble, "1.0e22", false, "", 0}, {types.FloatKindDouble, "5.0e7", false, "", 0},
 	{types.FloatKindDouble, "0.1", false, "", 0}, {types.FloatKindDouble, "-2.5e-3", false, "", 0}, {types.FloatKindDouble, "1.5e300", false, "", 0},
